@@ -181,6 +181,86 @@ static std::string handle(const std::string& cmd, const std::string& args) {
     double c = c_strtod(field.c_str(), &end, &er);
     return "g=" + bits(g) + " c=" + bits(c) + "," + std::to_string(end - field.c_str()) + "," + std::to_string(er);
   }
+  if (cmd == "o_int") {          // string_to_int / simple_atoi / no_sign_atoi against strtol (C locale)
+    std::string s = hv::hex_decode(w.at(0));
+    size_t len = (size_t) to_ll(w.at(1));
+    std::string padded = s + std::string(8, '\0');
+    std::string field = len ? std::string(padded.c_str()).substr(0, len) : std::string(padded.c_str());
+    char* end;
+    long v = strtol_l(field.c_str(), &end, 10, c_locale());
+    bool converted = end != field.c_str();
+    const char* q = end;
+    while (isspace_l((unsigned char) *q, c_locale())) ++q;
+    bool whole = converted && *q == '\0';
+    int g = gemmi::string_to_int(padded.c_str(), false, len);
+    if (g != v) return "unchecked " + std::to_string(g) + " strtol " + std::to_string(v);
+    if (len == 0 || len >= std::strlen(padded.c_str())) {   // the checked variant looks at p[i] after the field
+      try {
+        int c = gemmi::string_to_int(padded.c_str(), true, len);
+        if (!whole) return "checked accepted a non-integer: " + std::to_string(c);
+        if (c != v) return "checked " + std::to_string(c) + " strtol " + std::to_string(v);
+      } catch (std::invalid_argument&) {
+        if (whole) return "checked rejected an integer";
+      }
+    }
+    if (len == 0) {
+      const char* e1 = nullptr;
+      int a = gemmi::simple_atoi(padded.c_str(), &e1);
+      if (a != v) return "simple_atoi " + std::to_string(a) + " strtol " + std::to_string(v);
+      if (converted && e1 - padded.c_str() != end - field.c_str()) return "simple_atoi end";
+      const char* p0 = field.c_str();
+      while (isspace_l((unsigned char) *p0, c_locale())) ++p0;
+      if (*p0 != '+' && *p0 != '-') {
+        const char* e2 = nullptr;
+        int b = gemmi::no_sign_atoi(padded.c_str(), &e2);
+        if (b != v) return "no_sign_atoi " + std::to_string(b) + " strtol " + std::to_string(v);
+        if (converted && e2 - padded.c_str() != end - field.c_str()) return "no_sign_atoi end";
+      }
+      if (gemmi::read_int(padded.c_str(), (int) field.size() + 1) != v) return "read_int";
+    } else if (gemmi::read_int(padded.c_str(), (int) len) != v) {
+      return "read_int " + std::to_string(gemmi::read_int(padded.c_str(), (int) len)) + " strtol " + std::to_string(v);
+    }
+    return "1";
+  }
+  if (cmd == "o_dbl") {          // fast_atof / fast_from_chars / read_double against strtod (C locale)
+    std::string s = hv::hex_decode(w.at(0));
+    int len = (int) to_ll(w.at(1));    // 0: NUL-terminated (fast_atof), else fixed column
+    std::string padded = s + std::string(8, '\0');
+    if ((size_t) len > padded.size()) return "skip";
+    std::string field = len ? std::string(padded.data(), len) : padded;
+    field = std::string(field.c_str());
+    // position after blanks and one '+', as the readers define it
+    size_t p0 = 0;
+    while (p0 < field.size() && isspace_l((unsigned char) field[p0], c_locale())) ++p0;
+    if (p0 < field.size() && field[p0] == '+') ++p0;
+    size_t q = p0;
+    if (q < field.size() && field[q] == '-') ++q;
+    bool special = q < field.size() &&
+        ((field[q] == '0' && q + 1 < field.size() && (field[q+1] | 0x20) == 'x') ||   // hexadecimal
+         (field[q] | 0x20) == 'i' || (field[q] | 0x20) == 'n');                    // inf / nan
+    if (special) return "skip";
+    double d = 0;
+    gemmi::from_chars_result r = len ? gemmi::fast_from_chars(padded.c_str(), padded.c_str() + len, d)
+                                     : gemmi::fast_from_chars(padded.c_str(), d);
+    bool accepted = r.ptr > padded.c_str() + p0;
+    char* end; int er;
+    double c = c_strtod(field.c_str(), &end, &er);
+    // whole field is blanks* [+-]? decimal blanks* : it must be accepted
+    std::string core; std::string trimmed = field;
+    while (!trimmed.empty() && isspace_l((unsigned char) trimmed.back(), c_locale())) trimmed.pop_back();
+    size_t b0 = 0;
+    while (b0 < trimmed.size() && isspace_l((unsigned char) trimmed[b0], c_locale())) ++b0;
+    trimmed = trimmed.substr(b0);
+    bool plain = cif_number_syntax(trimmed, &core) && core == trimmed;
+    if (plain && !accepted) return "decimal field not read: strtod=" + bits(c);
+    if (accepted) {
+      if (bits(d) != bits(c)) return "value gemmi=" + bits(d) + " strtod=" + bits(c);
+      if (r.ptr - padded.c_str() != end - field.c_str()) return "end gemmi=" + std::to_string(r.ptr - padded.c_str()) + " strtod=" + std::to_string(end - field.c_str());
+    }
+    double d2 = len ? gemmi::read_double(padded.c_str(), len) : gemmi::fast_atof(padded.c_str());
+    if (bits(d2) != bits(d)) return "wrapper differs";
+    return "1";
+  }
   if (cmd == "prec") {           // to_str_prec<P>(d)
     int p = (int) to_ll(w.at(0));
     double d = from_bits(w.at(1));
